@@ -895,8 +895,23 @@ static const ebase BASES[] = {
 };
 #define NBASES ((int) (sizeof BASES / sizeof BASES[0]))
 static etok EQ[40], ER[40]; static int NEQ, NER;
+static hx_cfgspec ECFG; static int EDEVS;
+/* the configuration menu of statemc (same indices) */
+static void edits_cfg_menu(int idx, hx_cfgspec *c) {
+    hx_cfgspec_default(c);
+    static const int pers[] = { HTP_SERVER_IDS, HTP_SERVER_MINIMAL, HTP_SERVER_GENERIC, HTP_SERVER_APACHE_2, HTP_SERVER_IIS_5_1, HTP_SERVER_IIS_6_0, HTP_SERVER_IIS_7_0, HTP_SERVER_IIS_7_5 };
+    switch (idx) {
+        case 0: break;
+        case 1: c->auto_destroy = 1; break;
+        case 2: c->field_limit_hard = 24; c->max_tx = 2; break;
+        case 3: c->auto_destroy = 1; c->req_decomp = 1; c->parsers = 0; c->personality = HTP_SERVER_MINIMAL; break;
+        case 4: c->res_decomp = 0; c->parsers = 0; c->personality = HTP_SERVER_APACHE_2; break;
+        case 5: c->field_limit_hard = 24; c->max_tx = 2; c->auto_destroy = 1; break;
+        default: c->personality = pers[(idx - 6) % 8]; c->auto_destroy = (uint8_t) ((idx - 6) / 8 & 1); break;
+    }
+}
 static char edit_desc[300];
-static long edit_execs;
+static long edit_execs, n_devexec;
 static void edits_schedules(int P) {
     /* two threads Q (request tokens) and R (response tokens); default = keep feeding the same direction, requests first;
      * a preemption switches away from a direction that still has tokens */
@@ -920,9 +935,22 @@ static void edits_schedules(int P) {
                     case 4: ADDR(0, i); ADDQ(0, j); ADDR(i, n); ADDQ(j, m); break;
                 }
                 hx_script_add(&S, OP_CLOSE, NULL, 0);
+                S.cfg = ECFG;
                 if (hx_run(&S, &O)) continue;
                 n_exec++; edit_execs++; n_calls += O.ncalls; cx_set_add(&outcomes, hx_fnv(O.cbtrace.p, O.cbtrace.n, (uint64_t) O.final_in_status * 16 + (uint64_t) O.final_out_status));
                 hx_report_verdicts(&S, &O, PROPS);
+                if (EDEVS) {
+                    /* one callback deviation per execution: the n-th callback of this very schedule answers DECLINED / STOP / ERROR */
+                    static const uint8_t ACTS[] = { CBA_DECLINED, CBA_STOP, CBA_ERROR };
+                    int ncb = O.ncb;
+                    for (int n = 0; n < ncb && n < 400; n++) for (int a = 0; a < 3; a++) {
+                        S.ndev = 1; S.dev[0].n = (uint16_t) n; S.dev[0].act = ACTS[a];
+                        if (hx_run(&S, &O)) continue;
+                        n_exec++; n_devexec++; n_calls += O.ncalls; cx_set_add(&outcomes, hx_fnv(O.cbtrace.p, O.cbtrace.n, (uint64_t) O.final_in_status * 16 + (uint64_t) O.final_out_status));
+                        hx_report_verdicts(&S, &O, PROPS);
+                    }
+                    S.ndev = 0;
+                }
             }
         }
     }
@@ -978,6 +1006,7 @@ static void mode_edits(int argc, char **argv) {
     int thorough = !strcmp(hx_tier, "thorough");
     int E = atoi(hx_arg(argc, argv, "--edits", thorough ? "2" : "1")), P = atoi(hx_arg(argc, argv, "--preempt", thorough ? "2" : "1"));
     int cfgi = atoi(hx_arg(argc, argv, "--cfg", "0"));
+    edits_cfg_menu(cfgi, &ECFG); EDEVS = atoi(hx_arg(argc, argv, "--devs", "0"));
     for (int b = 0; b < NBASES; b++) {
         load_base(&BASES[b]);
         int nq0 = NEQ, nr0 = NER;
@@ -1005,8 +1034,7 @@ static void mode_edits(int argc, char **argv) {
             }
         }
     }
-    (void) cfgi;
-    hx_emit_stat("edit_histories", hx_shard_i == 0 ? edit_counter : 0);
+    hx_emit_stat("edit_histories", hx_shard_i == 0 ? edit_counter : 0); hx_emit_stat("callback_deviation_executions", n_devexec);
     hx_emit_sample("base \"CONNECT refused 407\" with one token-level edit (insert / delete / duplicate / replace / truncate / gap) under every schedule with <= 1 preemption");
 }
 
